@@ -344,7 +344,9 @@ class TcpClient(object):
 
         while True:
             try:
-                received = [i for i in self.socket.recv(4096)]
+                # a zmq STREAM socket delivers [identity, data] pairs: only
+                # the data part belongs to the byte stream
+                received = [i for i in self.socket.recv_multipart()[-1]]
 
                 self.buffer.extend(received)
                 # print(''.join(x.encode('hex') for x in self.buffer))
